@@ -189,7 +189,7 @@ def run_unit_case(M, kind, arg):
 
 # ---------------------------------------------------------------- direct Python oracle of the property (used when the Coq side breaks)
 RE_DUR = re.compile(r"-?P(\d+D)?(T(\d+H)?(\d+M)?(\d+(\.\d+)?S)?)?", re.A)
-RE_DT = re.compile(r"\d{4}-\d{2}-\d{2}T\d{2}:\d{2}:\d{2}(\.\d+)?(Z|[+-]\d{2}:\d{2})?", re.A)
+RE_DT = re.compile(r"\d{4}-\d{2}-\d{2}T\d{2}:\d{2}:\d{2}(\.\d+)?(Z|[+-]\d{2}:[0-5]\d)?", re.A)
 RE_DATE = re.compile(r"\d{4}-\d{2}-\d{2}", re.A)
 RE_COL = re.compile(r"#[0-9A-Fa-f]{6}", re.A)
 
